@@ -30,7 +30,7 @@ func init() {
 			{Name: "binary-right-assoc", File: f, Old: "p.expr1(x.Y, prec+1, depth+1)", New: "p.expr1(x.Y, prec, depth+1)", Expect: "binary/right-operand"},
 			{Name: "prefix-from-printer-state", File: "printer/printer.go", Old: "\t\tp.output = append(p.output, tabwriter.Escape)\n\t}\n\n\tif debug {", New: "\t\tp.output = append(p.output, tabwriter.Escape)\n\t\tif p.lastTok == token.CSTRING {\n\t\t\tp.output = append(p.output, 'c')\n\t\t}\n\t}\n\n\tif debug {", Expect: "literal-prefix/printer.print"},
 			{Name: "else-printed-only-without-init", File: f, Old: "\t\tif s.Else != nil {\n", New: "\t\tif s.Else != nil && s.Init == nil {\n", Expect: "print-operand-path/printer.stmt:IfStmt.Else"},
-			{Name: "key-value-swapped", File: f, Old: "\t\tp.expr(x.Key)\n\t\tp.print(x.Colon, token.COLON, blank)\n\t\tp.expr(x.Value)\n", New: "\t\tp.expr(x.Value)\n\t\tp.print(x.Colon, token.COLON, blank)\n\t\tp.expr(x.Key)\n", Expect: "print-order/KeyValueExpr"},
+			{Name: "key-value-swapped", File: f, Old: "\t\tp.expr(beforeColon(x.Key))\n\t\tp.print(x.Colon, token.COLON, blank)\n\t\tp.expr(x.Value)\n", New: "\t\tp.expr(x.Value)\n\t\tp.print(x.Colon, token.COLON, blank)\n\t\tp.expr(x.Key)\n", Expect: "print-order/KeyValueExpr"},
 			{Name: "unary-op-ignored", File: f, Old: "\t\t\t// no parenthesis needed\n\t\t\tp.print(x.Op)\n", New: "\t\t\t// no parenthesis needed\n\t\t\tp.print(token.SUB)\n", Expect: "print-field/UnaryExpr.Op"},
 		},
 	})
@@ -496,14 +496,18 @@ func checkPrintOrder(c *core.Check, ppk *packages.Package, nt *types.Named, cc *
 				return true
 			}
 			for _, a := range call.Args {
-				sel, ok := ast.Unparen(a).(*ast.SelectorExpr)
-				if !ok || identObj(info, sel.X) != caseVar {
-					continue
-				}
-				if _, tracked := idx[sel.Sel.Name]; tracked && !seen[sel.Sel.Name] {
-					seen[sel.Sel.Name] = true
-					order = append(order, sel.Sel.Name)
-				}
+				// the child itself or the child passed through a plain wrapper (beforeColon(x.Key), stripParens(x.X))
+				ast.Inspect(a, func(m ast.Node) bool {
+					sel, ok := m.(*ast.SelectorExpr)
+					if !ok || identObj(info, sel.X) != caseVar {
+						return true
+					}
+					if _, tracked := idx[sel.Sel.Name]; tracked && !seen[sel.Sel.Name] {
+						seen[sel.Sel.Name] = true
+						order = append(order, sel.Sel.Name)
+					}
+					return false
+				})
 			}
 			return true
 		})
